@@ -1,3 +1,6 @@
+// Verification hook (H4): tokio's `test-util` feature (virtual clock, enabled by the out-of-tree
+// harness) deepens the warp filter types in broker::service beyond the default limit.
+#![cfg_attr(feature = "verif", recursion_limit = "512")]
 #![forbid(unsafe_code)]
 #![deny(
     clippy::panic,
